@@ -17,7 +17,8 @@ class C06(Base):
             "term attributes, nested term calls) x argument sets x configurations (isolation, transform, formatter, both "
             "bundle flavours); the bomb family (3^k / 4^k fan-out chains with the placeable limit tripping inside plain "
             "patterns, select variants, literal selectors, nested placeables, call arguments, term values and attributes); "
-            "numeric extremes; hand-written scenarios. Non-trivial = at least one request resolved a reference or a "
+            "the same under long multi-byte string-literal selectors; a caller-owned error list already holding 100-500 errors "
+            "when a cycle or a bomb is formatted; numeric extremes; hand-written scenarios. Non-trivial = at least one request resolved a reference or a "
             "select or reported an error; distinct = distinct case line.")
     EXPLANATION = ("Theorems about the transcribed resolver model; tie: text and error list of format_pattern and "
                    "write_pattern for every request vs the model. Predicate on the implementation: returns (no panic / "
@@ -44,6 +45,8 @@ class C06(Base):
         for c in resgen.bomb_cases(rng):
             yield c
         for c in resgen.arg_bomb_cases(rng):
+            yield c
+        for c in resgen.errlist_cases(rng):
             yield c
         for c in self.extremes(rng):
             yield c
